@@ -147,7 +147,15 @@ Definition rng_eqb (a b : option (Z * Z)) : bool :=
    the old configuration? *)
 Definition key_changed (c : cfg) (old : option cfg) (s : nat) : bool :=
   match nth s (c_rng c) None with
-  | None => false
+  | None =>
+      (* keys removed since the last update count as changed (1ad19c0) *)
+      match old with
+      | None => false
+      | Some o => match nth s (c_rng o) None with
+                  | Some _ => true
+                  | None => false
+                  end
+      end
   | Some r =>
       match old with
       | None => true
@@ -173,7 +181,10 @@ Fixpoint update_box (c : cfg) (old : option cfg) (size : nat)
        then
          match d, nth s (c_rng c) None with
          | Some dcol, Some r => Some (box_of size r dcol)
-         | _, _ => b            (* feature not in the dataset: ignored *)
+         | Some _, None =>
+             (* the range was deleted: feat_filt[:] = True *)
+             if key_changed c old s then Some (repeat true size) else b
+         | None, _ => b         (* feature not in the dataset: ignored *)
          end
        else b) :: update_box c old size data' box' (S s)
   | _, _ => box
@@ -454,6 +465,24 @@ Definition set_enable (v : bool) (l : level) : level :=
 Definition set_rminv (v : bool) (l : level) : level :=
   let c := l_cfg l in set_cfg l (mkcfg (c_rng c) (c_enable c) v).
 
+(* config["filtering"].pop("<feat> min"); .pop("<feat> max") *)
+Definition del_range (slot : nat) (l : level) : level :=
+  let c := l_cfg l in
+  set_cfg l (mkcfg (set_nth slot None (c_rng c)) (c_enable c) (c_rminv c)).
+
+(* ds.reset_filter(): Filter.reset (box filters, old configuration and the
+   filter arrays dropped -- filter.all is all-True at once --, manual all
+   True), HierarchyFilter.reset (stored root ids dropped), and the default
+   switches in the configuration; configured ranges stay in the
+   configuration and are applied again at the next refresh *)
+Definition reset_level (l : level) : level :=
+  let f := l_filt l in
+  let size := length (f_manual f) in
+  mklevel (mkcfg (c_rng (l_cfg l)) true false)
+          (mkfilt (repeat None NSLOT) None (repeat true size)
+                  (repeat true size) [] (f_rids f) (f_phash f))
+          (l_len l) (l_data l) (l_cache l).
+
 Definition MAXDEPTH : nat := 4.
 
 Record state := mkstate { s_levels : list level; s_img : list Z }.
@@ -575,6 +604,11 @@ Definition step (st : state) (op : Z * Z * Z * Z * Z) : state * list Z :=
              | Some col => if d =? 0 then 1 :: enc_col col else [5; d]
              | None => [0]
              end)
+    else if a =? 4 then
+      (mkstate (upd_level ls (pos_of ls b) reset_level) img, [])
+    else if a =? 5 then
+      (mkstate (upd_level ls (pos_of ls b) (del_range (Z.to_nat (c mod 5))))
+               img, [])
     else (st, [])
   else if tag =? 4 then
     (mkstate (upd_level ls (pos_of ls a) (set_enable (negb (b =? 0)))) img, [])
@@ -645,6 +679,13 @@ Definition spec_step (st : state) (gs : list ghost) (op : Z * Z * Z * Z * Z)
     match ls with
     | [] => gs
     | _ => if Nat.leb (length ls) MAXDEPTH then mkghost [] [] :: gs else gs
+    end
+  else if (tag =? 3) && (a =? 4) then
+    (* reset_filter(): the user's exclusions on that level start over *)
+    let pos := pos_of ls b in
+    match nth_error ls pos with
+    | Some _ => set_nth pos (mkghost [] []) gs
+    | None => gs
     end
   else gs.
 
